@@ -173,7 +173,8 @@ pub fn malformed_line(t: &mut Tape) -> (String, &'static str, &'static str) {
         Kind::NoPreprocess,
         Kind::UnknownPreprocess,
     ]);
-    let lead = if t.chance(1, 4) { " ".repeat(1 + t.below(3)) } else { String::new() };
+    // indentation: spaces, or any other white space (the line is trimmed before it is looked at)
+    let lead = if t.chance(1, 4) { " ".repeat(1 + t.below(3)) } else if t.chance(1, 6) { t.pick(&["\t", "\u{a0}", "\u{3000}", "\u{b}", " \u{2003} ", "\u{85}"]).to_string() } else { String::new() };
     // a well-formed prefix with a command so that arguments may follow
     let mut prefix = gen_ins(t, 2, 4);
     if prefix.command.is_none() {
